@@ -123,3 +123,115 @@ def self_check_iterator_reuse() -> bool:
             return [], dotted(call.func)
 
     return bool(iterator_reuse_sites(_Repo(), fis["f"]))
+
+
+# ----------------------------------------------------------------------------- optional-number truthiness
+NUMERIC_ANN = ("complex", "float", "int", "Number", "numbers.Number", "np.ndarray")
+
+
+def _optional_numeric(ann: Optional[ast.AST]) -> bool:
+    if ann is None:
+        return False
+    t = norm(ann)
+    if t.startswith("Optional[") and t[len("Optional["):-1] in NUMERIC_ANN[:5]:
+        return True
+    if t.startswith("Union[") and "None" in t and any(n in t for n in NUMERIC_ANN[:5]):
+        return True
+    return False
+
+
+def _return_slots(fi: FuncInfo) -> List[Optional[ast.AST]]:
+    """Annotations of the positions of a ``Tuple[...]`` return annotation (or [annotation])."""
+    r = getattr(fi.node, "returns", None)
+    if r is None:
+        return []
+    if isinstance(r, ast.Subscript) and norm(r.value) in ("Tuple", "tuple", "typing.Tuple"):
+        s = r.slice
+        return list(s.elts) if isinstance(s, ast.Tuple) else [s]
+    return [r]
+
+
+def optional_number_truthiness(repo: Repo, fi: FuncInfo) -> List[Tuple[str, ast.AST, str]]:
+    """(name, test node, why-optional) where a value that may be a legitimate numeric 0 *or* None is
+    tested by truthiness: ``if x:`` treats 0 like "not given". Only ``is None`` / ``is not None`` tell
+    the two apart."""
+    cands: Dict[str, str] = {}
+    a = fi.node.args
+    for p in list(a.posonlyargs) + list(a.args) + list(a.kwonlyargs):
+        if _optional_numeric(p.annotation):
+            cands[p.arg] = f"parameter annotated {norm(p.annotation)}"
+    for n in body_walk(fi.node):
+        if isinstance(n, ast.Assign) and isinstance(n.value, ast.Call):
+            targets, _ = repo.resolve_call(fi, n.value)
+            for t in targets[:1]:
+                slots = _return_slots(t)
+                tgt = n.targets[0]
+                if isinstance(tgt, ast.Tuple) and len(slots) == len(tgt.elts):
+                    for e, s in zip(tgt.elts, slots):
+                        if isinstance(e, ast.Name) and _optional_numeric(s):
+                            cands[e.id] = f"position of {t.qualname}() annotated {norm(s)}"
+                elif isinstance(tgt, ast.Name) and len(slots) == 1 and _optional_numeric(slots[0]):
+                    cands[tgt.id] = f"result of {t.qualname}() annotated {norm(slots[0])}"
+    out: List[Tuple[str, ast.AST, str]] = []
+    if not cands:
+        return out
+
+    def bare(e: ast.AST) -> Optional[str]:
+        if isinstance(e, ast.UnaryOp) and isinstance(e.op, ast.Not):
+            return bare(e.operand)
+        if isinstance(e, ast.Name) and e.id in cands:
+            return e.id
+        if isinstance(e, ast.Call) and dotted(e.func) == "bool" and len(e.args) == 1:
+            return bare(e.args[0])
+        return None
+
+    for n in body_walk(fi.node):
+        tests: List[ast.AST] = []
+        if isinstance(n, (ast.If, ast.While, ast.IfExp, ast.Assert)):
+            tests.append(n.test)
+        if isinstance(n, ast.BoolOp):
+            tests.extend(n.values[:-1] if isinstance(n.op, (ast.And, ast.Or)) else [])
+        for t in tests:
+            parts = t.values if isinstance(t, ast.BoolOp) else [t]
+            for p in parts:
+                nm = bare(p)
+                if nm is not None:
+                    out.append((nm, p, cands[nm]))
+    seen = set()
+    uniq = []
+    for nm, p, why in out:
+        k = (nm, getattr(p, "lineno", 0), getattr(p, "col_offset", 0))
+        if k not in seen:
+            seen.add(k)
+            uniq.append((nm, p, why))
+    return uniq
+
+
+_POSITIVE_OPT = '''
+def parse(s) -> Tuple[Optional[complex], dict]:
+    return None, {}
+def f(text, coefficient: Optional[complex] = None):
+    parsed, ops = parse(text)
+    if parsed:
+        coefficient = parsed
+    return 1.0 if not coefficient else coefficient
+'''
+
+
+def self_check_optional_number() -> bool:
+    tree = ast.parse(_POSITIVE_OPT)
+
+    class _Mod:
+        name = "<positive>"
+        relpath = "<positive>"
+
+    fis = {n.name: FuncInfo(module=_Mod(), cls=None, name=n.name, qualname=n.name, node=n) for n in tree.body}
+
+    class _Repo:
+        def resolve_call(self, fi, call, local_types=None):
+            if isinstance(call.func, ast.Name) and call.func.id in fis:
+                return [fis[call.func.id]], None
+            return [], dotted(call.func)
+
+    hits = optional_number_truthiness(_Repo(), fis["f"])
+    return {h[0] for h in hits} == {"parsed", "coefficient"}
